@@ -43,7 +43,10 @@ class Contract:
         self.per_case = kw.pop("per_case", {})
         # definitional axioms of spec functions introduced by this contract: assumed when the function itself is verified,
         # not required of callers (conservative extension: the defined symbol is constrained nowhere else)
-        self.defines = list(kw.pop("defines", []))    # case name -> dict(requires=[], ensures=[]) additions
+        self.defines = list(kw.pop("defines", []))
+        # intermediate assertions ("lemmas"): {"<text contained in the unparsed statement>": [spec, ...]}; after the first
+        # statement whose source contains the text, each spec is proved on that path and then assumed
+        self.lemmas = dict(kw.pop("lemmas", {}))    # case name -> dict(requires=[], ensures=[]) additions
         assert not kw, "unknown contract keys %r" % list(kw)
 
     @property
